@@ -190,21 +190,36 @@ def self_attr_writes(fi, base='self'):
     out = {}
     MUT = ('append', 'extend', 'insert', 'pop', 'remove', 'clear', 'sort', 'reverse', 'update',
            'write', 'seek', 'put', 'setdefault', 'popitem', 'add', 'discard')
+    al = aliases_of(fi)
+
+    def field_of(root):
+        # `self.w`, or a local that holds the object of a field (`w = self.w`): mutating it mutates the field's object
+        if isinstance(root, ast.Attribute) and isinstance(root.value, ast.Name) and root.value.id == base:
+            return root.attr
+        if isinstance(root, ast.Name):
+            d = al.map.get(root.id) or getattr(al, 'stale_map', {}).get(root.id)
+            if d and d.startswith(base + '.') and d.count('.') == 1:
+                return d.split('.')[1]
+        return None
     for n in iter_nodes(fi.node):
         if isinstance(n, (ast.Assign, ast.AugAssign, ast.AnnAssign, ast.For, ast.With, ast.Delete)):
             tgs = assigned_targets(n) if not isinstance(n, ast.Delete) else n.targets
             for t in tgs:
                 root = t
+                sub = False
                 while isinstance(root, ast.Subscript):
                     root = root.value
-                if isinstance(root, ast.Attribute) and isinstance(root.value, ast.Name) and root.value.id == base:
-                    out.setdefault(root.attr, []).append(n)
+                    sub = True
+                a_ = field_of(root) if (sub or isinstance(root, ast.Attribute)) else None
+                if a_:
+                    out.setdefault(a_, []).append(n)
         elif isinstance(n, ast.Call) and isinstance(n.func, ast.Attribute) and n.func.attr in MUT:
             root = n.func.value
             while isinstance(root, ast.Subscript):
                 root = root.value
-            if isinstance(root, ast.Attribute) and isinstance(root.value, ast.Name) and root.value.id == base:
-                out.setdefault(root.attr, []).append(n)
+            a_ = field_of(root)
+            if a_:
+                out.setdefault(a_, []).append(n)
     return out
 
 
